@@ -667,11 +667,11 @@ fn pgn_patterns_by_content(src: &str) -> Option<PgnPatterns> {
 
 /// `None` when the source no longer has a recognisable shape (reported as `rx=nopattern`).
 pub fn pgn_patterns() -> Option<PgnPatterns> {
-    pgn_patterns_exact().or_else(|| std::fs::read_to_string("/repo/src/games.rs").ok().and_then(|s| pgn_patterns_by_content(&s)))
+    pgn_patterns_exact().or_else(|| std::fs::read_to_string(format!("{}/src/games.rs", crate::repo_root())).ok().and_then(|s| pgn_patterns_by_content(&s)))
 }
 
 fn pgn_patterns_exact() -> Option<PgnPatterns> {
-    let src = std::fs::read_to_string("/repo/src/games.rs").ok()?;
+    let src = std::fs::read_to_string(format!("{}/src/games.rs", crate::repo_root())).ok()?;
     let fp = src.find("pub fn from_pgn")?;
     let body = &src[fp..];
     let moves = raw_literal_after(body, "let moves_pattern = r\"")?;
